@@ -185,6 +185,38 @@ func changeField(r *wm.Rec, i int, spec wm.FieldSpec) bool {
 	return true
 }
 
+// regroup moves one octet across a boundary between two adjacent variable-length pieces (two
+// strings of a TXT-like list, two neighbouring character-strings, a string and the blob after it):
+// the same octets in the same order, grouped differently - a different RDATA.
+func regroup(r *wm.Rec) bool {
+	move := func(a, b *[]byte, maxB int) bool {
+		if len(*a) == 0 || len(*b) >= maxB {
+			return false
+		}
+		x := (*a)[len(*a)-1]
+		*a = append([]byte{}, (*a)[:len(*a)-1]...)
+		*b = append([]byte{x}, (*b)...)
+		return true
+	}
+	for i := range r.Fields {
+		f := &r.Fields[i]
+		if f.K == wm.Strs {
+			for j := 0; j+1 < len(f.L); j++ {
+				if move(&f.L[j], &f.L[j+1], 255) {
+					return true
+				}
+			}
+		}
+		if i+1 < len(r.Fields) && f.K == wm.Str {
+			g := &r.Fields[i+1]
+			if (g.K == wm.Str && move(&f.B, &g.B, 255)) || (g.K == wm.Rest && move(&f.B, &g.B, 60000)) {
+				return true
+			}
+		}
+	}
+	return false
+}
+
 // fromOneMessage returns the three records as they come out of ONE compressed message (RDATA names
 // compressed differently in the three places, Rdlength = compressed length)
 func fromOneMessage(recs []wm.Rec) []dns.RR {
@@ -286,7 +318,12 @@ func dupTypes() []uint16 {
 func derive(t *rapid.T, a wm.Rec) (wm.Rec, string) {
 	b := cloneRec(a)
 	layout, _ := wm.LayoutOf(a.Type)
-	switch rapid.IntRange(0, 8).Draw(t, "how") {
+	switch rapid.IntRange(0, 9).Draw(t, "how") {
+	case 9:
+		if !b.NoRdata && regroup(&b) {
+			return b, "regrouped"
+		}
+		return b, "identical"
 	case 0:
 		return b, "identical"
 	case 1:
@@ -404,6 +441,9 @@ func eachFieldChange(emit func(pairCase)) {
 			}
 			a.Fields = append(a.Fields, f)
 		}
+		if b := cloneRec(a); regroup(&b) {
+			emit(pairCase{A: a, B: b, C: a, How: "regrouped"})
+		}
 		for i := range layout {
 			b := cloneRec(a)
 			if changeField(&b, i, layout[i]) {
@@ -423,14 +463,16 @@ func eachFieldChange(emit func(pairCase)) {
 // Dedup
 
 type dedupCase struct {
-	Bases []wm.Rec // up to 4 group prototypes
-	Items []dedupItem
+	Bases  []wm.Rec // up to 4 group prototypes
+	Items  []dedupItem
+	OwnMap bool `json:",omitempty"` // the caller supplies the scratch map
 }
 
 type dedupItem struct {
 	Base      int
 	TTL       uint32
 	UpperMask uint64 // which owner letters are upper-cased
+	SameAs    int    `json:",omitempty"` // > 0: not a new record but the very record (same pointer) at position SameAs-1 again
 }
 
 func ownerVariant(n wm.Name, mask uint64) wm.Name {
@@ -473,9 +515,15 @@ func textKey(rr dns.RR) string {
 
 func checkDedup(c dedupCase) error {
 	var in []dns.RR
+	shared := false
 	for _, it := range c.Items {
 		if it.Base >= len(c.Bases) {
 			return nil
+		}
+		if it.SameAs > 0 && it.SameAs <= len(in) {
+			in = append(in, in[it.SameAs-1]) // one record value listed twice (a section appended to itself, a shared cache entry)
+			shared = true
+			continue
 		}
 		r := cloneRec(c.Bases[it.Base])
 		r.TTL = it.TTL
@@ -521,8 +569,15 @@ func checkDedup(c dedupCase) error {
 		}
 	}
 	pbt.Note([]byte(strings.Join(keys, "\n")+fmt.Sprint(c.Items)), big, fmt.Sprintf("groups=%d", len(groups)), fmt.Sprintf("records=%d", min(len(in), 12)))
+	if shared {
+		pbt.Class("same-record-listed-twice")
+	}
 	orig := append([]dns.RR{}, in...)
-	out := dns.Dedup(in, nil)
+	var scratch map[string]dns.RR
+	if c.OwnMap {
+		scratch = map[string]dns.RR{}
+	}
+	out := dns.Dedup(in, scratch)
 	if len(out) != len(order) {
 		return pbt.Errf("Dedup returned %d records for %d groups", len(out), len(order))
 	}
@@ -559,9 +614,14 @@ func genDedup(t *rapid.T) dedupCase {
 	}
 	n := rapid.IntRange(0, 12).Draw(t, "nitems")
 	for i := 0; i < n; i++ {
-		c.Items = append(c.Items, dedupItem{Base: rapid.IntRange(0, nb-1).Draw(t, "base"), TTL: uint32(gen.UintB(t, 32)),
-			UpperMask: rapid.SampledFrom([]uint64{0, 0, ^uint64(0), 0x5555555555555555, 1}).Draw(t, "mask")})
+		it := dedupItem{Base: rapid.IntRange(0, nb-1).Draw(t, "base"), TTL: uint32(gen.UintB(t, 32)),
+			UpperMask: rapid.SampledFrom([]uint64{0, 0, ^uint64(0), 0x5555555555555555, 1}).Draw(t, "mask")}
+		if i > 0 && rapid.IntRange(0, 7).Draw(t, "again") == 0 {
+			it.SameAs = rapid.IntRange(1, i).Draw(t, "sameas")
+		}
+		c.Items = append(c.Items, it)
 	}
+	c.OwnMap = rapid.Bool().Draw(t, "ownmap")
 	return c
 }
 
